@@ -226,7 +226,8 @@ def main():
         gen = [p for p in progs if p["origin"] != "corpus"]
         rng.shuffle(corp)
         corp.sort(key=lambda p: 0 if p["name"].startswith("reg-") else 1)
-        progs = corp[:30] + gen
+        nreg = sum(1 for p in corp if p["name"].startswith("reg-"))
+        progs = corp[:max(30, nreg + 6)] + gen
     # valid but silly constant subexpressions: what gcc's -Wall says about them is part of "compiles without warnings"
     decl = "out int x;\nout int{unsigned} u;\nout bool b;\n"
     for k, stmt in enumerate(['x = [1 << 40];', 'x = [x >> 64];', 'x = [2147483647 + 1];', 'x = [2147483647 * 2];', 'if b == 2 { "q"; }',
